@@ -19,6 +19,10 @@ STRENGTHENED = {
     'C06-1': 'missed at first (o5m seeds had only datasets with 1-byte lengths); C06 now has encoder-made o5m/o5c seeds incl. a way with 125/200 node refs',
     'C07-2': 'missed at first (injected faults were std::runtime_error and pieces were not aligned to blob boundaries); C07 now also throws classes derived from osmium::io_error and delivers PBF blobs as whole pieces',
     'C09-1': 'missed at first (no file whose total compressed size is a multiple of 5000); the corpus now has files with total size = 0 mod 5000/4096/100',
+    'C01-3': 'missed by the check as of /verif commit f2be2be (confirmed by running that version against the change: rc=0; a Writer was never given two whole buffers in a row, or flush() twice, after single items); C01 now drives a seeded sequence of item runs, whole buffers and flush() calls on one Writer',
+    'C01-4': 'caught by the check as of f2be2be with a single occurrence; C01 now also writes 40 buffers of 1000 nodes with distinct timestamps through a pool of 4 workers so that concurrent encoding of text blocks is certain, not incidental',
+    'C05-4': 'missed at first (one Reader at a time); C05 now runs every 6th case with two Readers alive at the same time and interposes close(2): a close on a descriptor that is not open is a violation (also in C07)',
+    'C08-4': 'missed by the check as of /verif commit f2be2be (confirmed by running that version against the change: rc=0; the Writer scenarios only wrote whole buffers); every C08 scenario now starts with single items followed by flush() before the buffers',
     'C02-1': 'missed at first (string pairs near the 250-character table limit were deliberately kept out of the files); C02 now places pairs of exactly 249/250/251/252 characters followed by references',
 }
 
